@@ -50,6 +50,17 @@ type Case struct {
 	// Links: symbolic links (path below the root, target; "$ROOT/" in a target stands for the served directory) planted
 	// after the tree has been materialised; model-free families only
 	Links [][2]string `json:"links,omitempty"`
+	// Linked: files of the initial tree that are moved out of the served directory after materialisation, a symbolic
+	// link (absolute target) left in their place: to the model they are the files they were
+	Linked []string `json:"linked,omitempty"`
+}
+
+func (e *env) linkify(paths []string) {
+	for _, p := range paths {
+		if err := Linkify(e.root, strings.TrimPrefix(p, "/"), filepath.Join(e.base, "linked-targets")); err != nil {
+			e.t.Fatalf("linkify %s: %v", p, err)
+		}
+	}
 }
 
 func (e *env) plant(links [][2]string) {
@@ -688,6 +699,7 @@ func runCase(t testing.TB, c Case) verdicts {
 	}
 	e.set(tree)
 	e.setTimes(c.MTimes)
+	e.linkify(c.Linked)
 	e.plant(c.Links)
 	var last verdicts
 	for _, r := range c.Reqs {
